@@ -142,7 +142,9 @@ def main():
     mols = ["Oc1ccc2ccccc2c1", "Nc1cccc2ccccc12", "Nc1ccc2ncccc2c1", "OC1CCCCC1", "CC(=O)OC(C)=O", "COC(C)OC", "O=C(O)c1ccccc1O",
             "CC(=O)Nc1ccccc1", "CC(=O)SC", "OCC(O)CO", "CC(O)OC", "C1OCOC1", "O=C1OCCO1", "NC(=O)OC", "CON", "C[N+](=O)[O-]",
             "CSC(C)=O", "OC(=S)C", "N#CCO", "c1cc[nH]c1O", "COc1ccccc1", "O=CC=O", "OC=O", "NC(N)=O", "CC(=O)C(C)=O", "C1COC(=O)O1",
-            "OCOCO", "COCOC", "CC(C)(O)OC", "O=C1CCC(=O)O1"]
+            "OCOCO", "COCOC", "CC(C)(O)OC", "O=C1CCC(=O)O1",
+            # aromatic rings that are not six-membered next to six-ring patterns (anilin = Nc1ccccc1)
+            "Cc1cccc(N)c(=O)c1", "Nc1ccccc(=O)c1", "Nc1ccc2cccccc12", "Nc1cccc2cccc12", "Nc1ccco1", "Nc1cccs1", "Nc1ccc[nH]1"]
     mols += corpus.molecules(limit=150 if tier == "quick" else 3000, rng=rng)
     nfg = 0
     for smi in mols:
@@ -172,9 +174,17 @@ def main():
                 if not real and not any(renum) and not any(refP):
                     continue   # trivially consistent negatives are not logged (keeps the log small)
                 nfg += 1
-                add({"ev": "fg", "smiles": Chem.MolToSmiles(m), "group": name, "atom": idx, "sym": atom.GetSymbol(),
-                     "real": real, "renum": renum, "refP": refP, "refG": refG, "refA": refA,
-                     "in_ring": idx in ring_atoms or any(nb.GetIdx() in ring_atoms for nb in atom.GetNeighbors())})
+                e = {"ev": "fg", "smiles": Chem.MolToSmiles(m), "group": name, "atom": idx, "sym": atom.GetSymbol(),
+                     "real": real, "renum": renum, "refP": refP, "refG": refG, "refA": refA, "graphs": False,
+                     "in_ring": idx in ring_atoms or any(nb.GetIdx() in ring_atoms for nb in atom.GetNeighbors())}
+                ref = any(a_ and b_ for a_, b_ in zip(refP, refG)) and not any(refA)
+                if real != ref and ring_atoms and m.GetNumAtoms() <= 40:
+                    # the answer disagrees with the reference in a molecule with rings: log the graphs so that TLC can
+                    # evaluate the transcription of the algorithm (IsGroup) and tell the known ring-overlap behaviour
+                    # (real = transcription) from anything else
+                    e.update({"graphs": True, "mol": g, "pats": [graph_of(x) for x in cfg.pattern],
+                              "grps": [graph_of(x) for x in cfg.groups], "antis": [graph_of(x) for x in cfg.anti_pattern]})
+                add(e)
     common.write_ndjson(out_file, ev)
     print(json.dumps({"events": len(ev), "small_molecules": min(nmol, limit), "fg_events": nfg,
                       "groups": len(groups), "patterns_small": len(pats)}))
